@@ -66,7 +66,7 @@ def currentLocation : M LocRef := Prog.curLoc Prog.pure
 def getTop : M BlockView := Prog.top Prog.pure
 def emit (p : Payload) : M Unit := Prog.emit p (Prog.pure ())
 def setLoc (l : LocRef) : M Unit := Prog.setLoc l (Prog.pure ())
-def getOpts : M Options := Prog.opt Prog.pure
+def getConvertVoid : M Bool := Prog.opt Prog.pure
 def debugPrint (msg : String) : M Unit := Prog.debug msg (Prog.pure ())
 
 /-- `self._current_access`: `getattr(self.state, "access", None)` -/
